@@ -41,9 +41,11 @@ NARROW_ENTRIES = [J + "::gjk_distance_jolt", J + "::gjk_intersection_jolt", J + 
                   "distance3d.mpr::mpr_intersection", "distance3d.mpr::mpr_penetration", "distance3d.epa::epa"]
 
 ENTRY = {
-    "C01": lambda idx: cg.roots(idx, J + "::gjk_distance_jolt"),
+    # the colliders the statements quantify over reach their state through __init__ / update_pose: those belong to every narrow-phase scope
+    "C01": lambda idx: cg.roots(idx, J + "::gjk_distance_jolt") + _collider_methods(idx, ("__init__", "update_pose")),
     "C02": lambda idx: cg.roots(idx, J + "::gjk_intersection_jolt", L + "::gjk_intersection_libccd", "distance3d.mpr::mpr_intersection",
-                                N1 + "::gjk_nesterov_accelerated_intersection", N2 + "::gjk_nesterov_accelerated_primitives_intersection"),
+                                N1 + "::gjk_nesterov_accelerated_intersection", N2 + "::gjk_nesterov_accelerated_primitives_intersection")
+                       + _collider_methods(idx, ("__init__", "update_pose")),
     "C03": lambda idx: _collider_methods(idx, ("support_function", "first_vertex", "center", "__call__", "__init__", "update_pose"))
                        + [f for f in idx.module("distance3d.geometry").functions.values() if f.name.startswith("support_function_")]
                        + cg.roots(idx, "distance3d.mesh::make_convex_mesh"),      # builds the outward-wound triangles mesh colliders are made of
@@ -53,9 +55,10 @@ ENTRY = {
     "C06": lambda idx: _all_of(idx, "distance3d.broad_phase", "distance3d.self_collision", "distance3d.urdf_utils", "distance3d.aabb_tree")
                        + _collider_methods(idx, ("update_pose", "aabb", "__init__")),
     "C07": lambda idx: cg.roots(idx, "distance3d.epa::epa") + _collider_methods(idx, ("support_function", "__call__", "__init__")),      # epa queries collider.support_function (dynamic dispatch: every implementation and what it is built from)
-    "C08": lambda idx: cg.roots(idx, "distance3d.mpr::mpr_penetration"),
+    "C08": lambda idx: cg.roots(idx, "distance3d.mpr::mpr_penetration") + _collider_methods(idx, ("__init__", "update_pose")),
     "C09": lambda idx: cg.roots(idx, O + "::gjk_distance_original", N1 + "::gjk_nesterov_accelerated_distance", N2 + "::gjk_nesterov_accelerated_primitives_distance",
-                                N1 + "::gjk_nesterov_accelerated", N2 + "::gjk_nesterov_accelerated_primitives") + [f for f in _all_of(idx, O, N1, N2, J) if "iterations" in f.name],
+                                N1 + "::gjk_nesterov_accelerated", N2 + "::gjk_nesterov_accelerated_primitives") + [f for f in _all_of(idx, O, N1, N2, J) if "iterations" in f.name]
+                       + _collider_methods(idx, ("__init__", "update_pose")),
     "C10": lambda idx: _pkg(idx, "distance3d.distance"),
     "C11": lambda idx: _pkg(idx, "distance3d.distance"),
     "C12": lambda idx: _pkg(idx, "distance3d.distance") + cg.roots(idx, *NARROW_ENTRIES) + _collider_methods(idx, ("support_function", "aabb", "__init__", "update_pose"))
@@ -63,7 +66,8 @@ ENTRY = {
                        + [f for f in idx.module("distance3d.geometry").functions.values() if f.name.startswith("support_function_")],
     # "...agree with the collider's support function": the closed-form support functions are the reference the predicates must agree with
     "C13": lambda idx: cg.roots(idx, "distance3d.mesh::make_convex_mesh") + [f for n in ("_cylinder", "_disk", "_box", "_ellipsoid") for f in idx.module("distance3d.distance." + n).functions.values() if f.name.startswith("point_to_")] + [f for f in idx.module("distance3d.containment_test").functions.values() if f.name.startswith("points_in_")]
-                       + [f for f in idx.module("distance3d.geometry").functions.values() if f.name.startswith("support_function_")],
+                       + [f for f in idx.module("distance3d.geometry").functions.values() if f.name.startswith("support_function_")]
+                       + _collider_methods(idx, ("support_function", "__init__", "update_pose")),
     "C14": lambda idx: _all_of(idx, COLL, "distance3d.mesh"),
     "C15": lambda idx: _all_of(idx, HY + "_tetrahedron_intersection", HY + "_halfplanes", HY + "_barycentric_transform", HY + "_interface", HY + "_forces"),
     "C16": lambda idx: _all_of(idx, HY + "_interface", HY + "_forces", HY + "_rigid_body", HY + "_contact_surface", HY + "_broad_phase"),
